@@ -15,7 +15,7 @@ events: ["proxyok"] ["proxybad"] ["hs"] ["badhs"] ["hsraise"] ["hsdeny"] (valid 
         ["sendMessageSync"] ["sendChopped"] ["tickus", microseconds]   (send queue; not in the Gallina model)
         ["beginMessageFrame", n] ["sendMessageFrameData", n] ["sendPrepared"]   (oracle-only)
         ["peerClose", code|null, reasonhex|null] ["peerClose1"] ["peerData"] ["peerPing"] ["peerPong", matching]
-        ["peerViolation"] ["peerInvalid"] ["tick", t_ms] ["tickrel", "next"|ms] ["peerDrop", clean] ["ownDrop"]
+        ["peerViolation"] ["peerInvalid"] ["peerBig", n] (n-octet message; cfg maxMsg / maxFrame; oracle-only) ["tick", t_ms] ["tickrel", "next"|ms] ["peerDrop", clean] ["ownDrop"]
 All times must be multiples of 125 ms (dyadic => exact in binary floating point on both virtual clocks).
 
 An event that is not applicable in the current state (handshake octets outside CONNECTING, frames in CONNECTING or
@@ -185,6 +185,10 @@ class Case:
                     autoPingSize=cfg["pingSize"], autoPingRestartOnAnyTraffic=cfg["restart"])
         if self.role == "client":
             opts["serverConnectionDropTimeout"] = self.sec(cfg["dropTO"])
+        if cfg.get("maxMsg"):
+            opts["maxMessagePayloadSize"] = int(cfg["maxMsg"])      # oracle-only families: close 1009
+        if cfg.get("maxFrame"):
+            opts["maxFramePayloadSize"] = int(cfg["maxFrame"])
         fkw = {}
         if cfg.get("proxy") and self.role == "client":
             fkw["proxy"] = {"host": "127.0.0.1", "port": 8080}     # explicit HTTP proxy: CONNECT first (STATE_PROXY_CONNECTING)
@@ -431,8 +435,11 @@ class Case:
                 return True
             if flow and partial:
                 return False                       # whatever we sent now would be read as payload of the unfinished frame
-            if k in ("peerData", "peerInvalid") and flow and inmsg:
+            if k in ("peerData", "peerInvalid", "peerBig") and flow and inmsg:
                 return False
+            if k == "peerBig":              # a binary message of ev[1] octets (beyond maxMessagePayloadSize / maxFramePayloadSize)
+                self.peer_frame(2, b"B" * int(ev[1]))
+                return True
             if k == "peerHead":
                 if not flow or inmsg:
                     return False
